@@ -151,6 +151,16 @@ func fForm(i, n int) (string, *openfgav1.Userset, []*openfgav1.RelationReference
 		text := "(" + a1.text + fOpNames[op1] + a2.text + ")" + fOpNames[op] + "(" + b1.text + fOpNames[op2] + b2.text + ")"
 		return text, fOp(op, fOp(op1, a1.u, a2.u), fOp(op2, b1.u, b2.u)), a1.restr
 	}
+	if zzverif.Param(fmt.Sprintf("NEST%d", i), 0) == 3 {
+		// ((A1 in A2) mid A3) top ((B1 in B2) mid B3): three levels, the two innermost operators are cousins of the same
+		// kind at the same depth and position under different parents
+		small := []fLeaf{leaves[16], leaves[17]}
+		top, mid, in := zzverif.Choose(tag+".top", 3), zzverif.Choose(tag+".mid", 3), zzverif.Choose(tag+".in", 3)
+		pick := func(t string) fLeaf { return small[zzverif.Choose(t, 2)] }
+		a1, a2, a3, b1, b2, b3 := leaves[0], pick(tag+".a2"), pick(tag+".a3"), pick(tag+".b1"), pick(tag+".b2"), pick(tag+".b3")
+		text := "((" + a1.text + fOpNames[in] + a2.text + ")" + fOpNames[mid] + a3.text + ")" + fOpNames[top] + "((" + b1.text + fOpNames[in] + b2.text + ")" + fOpNames[mid] + b3.text + ")"
+		return text, fOp(top, fOp(mid, fOp(in, a1.u, a2.u), a3.u), fOp(mid, fOp(in, b1.u, b2.u), b3.u)), a1.restr
+	}
 	if zzverif.Param(fmt.Sprintf("NEST%d", i), 0) == 2 {
 		// (A1 op1 A2) op B1: one nested group, small menus (used for several relations at once)
 		first := []fLeaf{leaves[0], leaves[16]}
@@ -269,7 +279,7 @@ func fFamilyModel() (*openfgav1.AuthorizationModel, string) {
 			pr = []*openfgav1.RelationReference{fRef("bare"), fRef("doc")}
 			tds = append(tds, &openfgav1.TypeDefinition{Type: "bare"})
 		}
-		if parents != 5 && parents != 6 {
+		if parents != 5 && parents != 6 && parents != 7 {
 			org := &openfgav1.TypeDefinition{Type: "org", Relations: map[string]*openfgav1.Userset{}, Metadata: &openfgav1.Metadata{Relations: map[string]*openfgav1.RelationMetadata{}}}
 			for i := 0; i < n; i++ {
 				org.Relations[fRelNames[i]] = fThis()
@@ -281,6 +291,12 @@ func fFamilyModel() (*openfgav1.AuthorizationModel, string) {
 	}
 	td.Relations["p"] = fThis()
 	td.Metadata.Relations["p"] = &openfgav1.RelationMetadata{DirectlyRelatedUserTypes: pr}
+	if parents == 7 {
+		// the tupleset is no direct assignment at all (`define p: a`): its list of type restrictions is EMPTY BUT NOT NIL,
+		// which is what the DSL transformer produces for such a relation - a tuple-to-userset over it is invalid
+		td.Relations["p"] = fComputed(fRelNames[0])
+		td.Metadata.Relations["p"] = &openfgav1.RelationMetadata{DirectlyRelatedUserTypes: []*openfgav1.RelationReference{}}
+	}
 	return &openfgav1.AuthorizationModel{SchemaVersion: "1.1", TypeDefinitions: tds}, strings.Join(text, " / ")
 }
 
